@@ -5,6 +5,7 @@ import FractopoModel.Generated.SnapInsert
 import FractopoModel.Generated.SnapDriver
 import FractopoModel.Generated.InsertPoint
 import FractopoModel.Lemmas.SnapStage
+import FractopoModel.Exec.Pipe
 /-!
 # Runs the REGENERATED second snapping stage and the regenerated repeat-until-stable driver (translator validation, stream
 S06-generated).  Distances are compared squared; the vertex insertion is the exact model `Snap.insertGeo`.
@@ -73,6 +74,7 @@ def dispatch (line : String) : String :=
       | "driver" => driverCmd a
       | "ginsert" => ginsert a
       | "gsnappass" => gsnappass a
+      | "gpipe" => Exec.gpipe a
       | _ => some s!"error=unknown-command:{cmd}"
     r.getD "error=bad-arguments"
 
